@@ -15,6 +15,7 @@ usage: translate.py [--repo /repo] [--out lean/FeedVerif/Gen] [--snapshot refere
 """
 import argparse
 import json
+import re
 import os
 import sys
 
@@ -161,7 +162,46 @@ def collect(repo):
     strict, loose = api.StrictFeedParser, api.LooseFeedParser
     def handlers(cls, pre):
         return sset(n[len(pre):] for n in dir(cls) if n.startswith(pre) and callable(getattr(cls, n)))
+    # ---- handlers recognised BY THEIR SOURCE as "simple date element": start = `self.push(K, 1)`, end = `value = self.pop(K)` followed by
+    # `self._save(K_parsed, _parse_date(value), overwrite=True)` (three spellings), reached directly, through an alias, or through a one-line delegation
+    import ast, inspect, textwrap
+
+    def body_of(fn):
+        t = ast.parse(textwrap.dedent(inspect.getsource(fn))).body[0]
+        body = [b for b in t.body if not (isinstance(b, ast.Expr) and isinstance(b.value, ast.Constant))]
+        return ast.unparse(ast.Module(body=body, type_ignores=[]))
+
+    def start_key(name, depth=0):
+        fn = getattr(M, "_start_" + name, None)
+        if fn is None or depth > 3:
+            return None
+        b = body_of(fn)
+        m = re.fullmatch(r"self\.push\('([a-z_]+)', 1\)", b)
+        if m:
+            return m.group(1)
+        m = re.fullmatch(r"self\._start_([A-Za-z_]+)\(attrs_d\)", b)
+        return start_key(m.group(1), depth + 1) if m else None
+
+    def end_keys(name, depth=0):
+        fn = getattr(M, "_end_" + name, None)
+        if fn is None or depth > 3:
+            return None
+        b = body_of(fn)
+        m = re.fullmatch(r"value = self\.pop\('([a-z_]+)'\)\n(?:parsed_value = _parse_date\(value\)\n)?self\._save\('([a-z_]+)', (?:_parse_date\(value\)|parsed_value), overwrite=True\)", b)
+        if m:
+            return (m.group(1), m.group(2))
+        m = re.fullmatch(r"self\._save\('([a-z_]+)', _parse_date\(self\.pop\('([a-z_]+)'\)\), overwrite=True\)", b)
+        if m:
+            return (m.group(2), m.group(1))
+        m = re.fullmatch(r"self\._end_([A-Za-z_]+)\(\)", b)
+        return end_keys(m.group(1), depth + 1) if m else None
+    date_handlers = []
+    for n in handlers(strict, "_start_"):
+        sk, ek = start_key(n), end_keys(n)
+        if sk is not None and ek is not None and ek[0] == sk:
+            date_handlers.append((Chars(n), Chars(sk), Chars(ek[1])))
     T["Mixin"] = [
+        ("dateElementsL", "List (List Char × List Char × List Char)", date_handlers),
         ("namespaces", "List (String × String)", sorted(M.namespaces.items())),
         ("matchNamespaces", "List (String × String)", sorted(M._matchnamespaces.items())),
         ("canBeRelativeUri", "List String", sset(M.can_be_relative_uri)),
